@@ -95,6 +95,8 @@ def gen_case(rng, tag, length, raise_p=0.5, soup=False):
     def fill(k, m):
         for _ in range(m):
             op_add(k, False)
+            if rng.random() < 0.35:
+                op_add(k, True)   # a refused duplicate in between
 
     def make_source(k, j, reject_at=None, subset=False):
         """(re)build register j as a source for a bulk update of register k"""
@@ -479,7 +481,7 @@ def directed(rng):
 def generate(seed, tier):
     rng = random.Random(seed)
     cases = directed(rng)
-    nrand = 9000 if tier == "thorough" else 900
+    nrand = 30000 if tier == "thorough" else 2500
     for i in range(nrand):
         cases.append(gen_case(rng, "rnd%d" % i, rng.randint(12, 60)))
     return cases
